@@ -18,6 +18,10 @@ type Node struct {
 	Offset   int     // leaf: byte offset in the rendered text (set by Text)
 }
 
+// MaxNodes bounds the size of a derivation tree (deep budgets would otherwise
+// grow trees exponentially).
+const MaxNodes = 400
+
 // Token is one element of a token sequence.
 type Token struct {
 	Name   string `json:"name"` // gocc token id
@@ -30,6 +34,7 @@ type Sentence struct {
 	Tree   *Node
 	Tokens []Token
 	Text   string
+	nodes  int
 	// Expected under fault-free execution:
 	Log    []string // one rendered entry per action call, in call order
 	Result string   // canonical rendering of the value Parse must return
@@ -71,7 +76,15 @@ func (g *Grammar) derive(r *prng.R, nt string, budget int, s *Sentence) *Node {
 	}
 	// prefer growing alternatives while budget is large, so that sentences are not all tiny
 	a := prng.Pick(r, fit)
-	if budget > 3 && len(fit) > 1 {
+	s.nodes++
+	if s.nodes > MaxNodes {
+		// size budget spent: finish with the shallowest alternative
+		for _, b := range fit {
+			if g.altHeight(b) < g.altHeight(a) {
+				a = b
+			}
+		}
+	} else if budget > 3 && len(fit) > 1 {
 		b := prng.Pick(r, fit)
 		if g.altHeight(b) > g.altHeight(a) || len(b.Syms) > len(a.Syms) {
 			a = b
